@@ -30,3 +30,50 @@ def typed_data(engine, payload=None):
       cols[str(cid)] = [_sig(col.raw_get(r)) for r in rows]
     out[str(tid)] = {'rows': [int(r) for r in rows], 'cols': cols}
   return out
+
+
+def _fp(v, depth=0):
+  """Fingerprint of a raw cell value that does not go through objtypes.encode_object: Python type plus what a formula could
+  observe of the value (zone and wall time of datetimes, element types of containers, ...)."""
+  import datetime
+  name = type(v).__name__
+  if v is None or isinstance(v, (bool, int, float)):
+    return '%s:%r' % (name, v)
+  if isinstance(v, str):
+    return '%s:%r' % (name, v if len(v) <= 40 else v[:40] + '...%d' % len(v))
+  if depth >= 4:
+    return name
+  if isinstance(v, datetime.datetime):
+    zone = getattr(getattr(v.tzinfo, 'zone', None), 'name', None) or (v.tzinfo and v.tzinfo.tzname(v))
+    return '%s:%s@%s' % (name, v.isoformat(), zone)
+  if isinstance(v, datetime.date):
+    return '%s:%s' % (name, v.isoformat())
+  if isinstance(v, (list, tuple)):
+    return '%s[%s]' % (name, ','.join(_fp(x, depth + 1) for x in v[:20]))
+  if isinstance(v, dict):
+    return '%s{%s}' % (name, ','.join(sorted('%r=%s' % (k, _fp(x, depth + 1)) for k, x in list(v.items())[:20])))
+  for attrs in (('_table', '_row_id'), ('table_id', 'row_id'), ('_table', '_row_ids'), ('table_id', 'row_ids')):
+    if all(hasattr(v, a) for a in attrs):
+      t = getattr(v, attrs[0])
+      return '%s:%s:%r' % (name, getattr(t, 'table_id', t), getattr(v, attrs[1]))
+  if name == 'RaisedException':
+    return '%s:%s' % (name, getattr(v, '_name', None))
+  if name == 'UnmarshallableValue':
+    return '%s:%s' % (name, getattr(v, 'value_repr', None))
+  return name
+
+
+def value_fingerprints(engine, payload=None):
+  """Same shape as typed_data, with a fingerprint (_fp) per cell in place of the bare type signature."""
+  out = {}
+  for tid, table in engine.tables.items():
+    if tid.startswith('_grist_'):
+      continue
+    cols = {}
+    rows = list(table.row_ids)
+    for cid, col in table.all_columns.items():
+      if col.is_formula() or cid.startswith('#') or cid == 'id':
+        continue
+      cols[str(cid)] = [_fp(col.raw_get(r)) for r in rows]
+    out[str(tid)] = {'rows': [int(r) for r in rows], 'cols': cols}
+  return out
